@@ -396,7 +396,7 @@ func perBackendCounts(r *lib.Run, sm *lite.StrategyManager, h *hist, openBy map[
 
 func hostileFamily(r *lib.Run) {
 	const workers = 8
-	nHist := r.N(96, 4000)
+	nHist := r.N(96, 2400)
 	var worlds []*world
 	for i := 0; i < workers; i++ {
 		w, err := newHostileWorld()
@@ -642,7 +642,7 @@ func hostileFamily(r *lib.Run) {
 // connections are open.
 func churnFamily(r *lib.Run) {
 	rng := r.Rng("churn")
-	rounds := r.N(1500, 60000)
+	rounds := r.N(1500, 40000)
 	const host = "churn.example.org"
 	busySp := []string{"busy.backend.example:25565", "BUSY.backend.example:25565", "Busy.Backend.Example:25565"}
 	const idle = "idle.backend.example:25565"
